@@ -1064,13 +1064,14 @@ impl ParserState {
             let mut recog = ParserRecognizer { state };
             for (tidx, &tok) in tokens.iter().enumerate() {
                 let state = &mut recog.state;
-                if trie.eos_tokens().contains(&tok) {
-                    if applied_idx == state.bytes.len() && state.is_accepting_inner() {
-                        return tidx + 1;
-                    } else {
-                        return tidx;
-                    }
+                if trie.eos_tokens().contains(&tok)
+                    && applied_idx == state.bytes.len()
+                    && state.is_accepting_inner()
+                {
+                    return tidx + 1;
                 }
+                // otherwise the EOS token is only valid if the grammar names it at this
+                // position (e.g. `"a" <|end|> "b"`); it is then handled like any special token
 
                 if applied_idx >= state.bytes.len() {
                     let saved_parser_state = state.save_state();
